@@ -21,11 +21,12 @@ func registerC14() {
 			"two-byte preimage computed with the bit-serial reference (every (state, byte) pair is one distinct non-trivial case); family streaming: PRNG byte strings " +
 			"(length 0..5000) x PRNG write partitions, compared with the reference, also fed through io.Copy / io.CopyN from short-reading and data-with-EOF readers, Reset, residue and Sum(nil); distinct by string digest; family long-writes: for each of the " +
 			"65536 register states s and block offsets 0/4/8/.../28 one single Write of >= 64 bytes that drives the register to s and then feeds it s itself followed by zero bytes " +
-			"(the input on which multi-byte-at-a-time and zero-skipping implementations go wrong), compared with the reference and with a byte-wise feed; family lengths: single writes of 30 KB - 1.3 MB whose length (and whose halves, thirds, " +
+			"(the input on which multi-byte-at-a-time and zero-skipping implementations go wrong), compared with the reference and with a byte-wise feed; family lengths: single writes of 30 KB - 2.3 MB (from zero and non-zero starting states, workers with GOMAXPROCS=4) whose length (and whose halves, thirds, " +
 			"quarters and eighths) sit at and around multiples of 32767 - the order of x modulo the CRC polynomial, where implementations that split a write and combine partial sums wrap - plus PRNG long lengths, from PRNG starting states",
 		Assume:        []string{"the bit-serial reference CRC-16/ARC (12 lines, checked against the catalogue check value 0xBB3D) is the specification"},
 		MinNontrivial: 1 << 24,
 		Families386:   []string{"streaming", "lengths"},
+		WorkerProcs:   4, // implementations that split long writes over goroutines only do so with GOMAXPROCS > 1
 		Families: []lib.Family{
 			{Name: "transitions", N: func(string) uint64 { return 256 }, Run: c14Transitions},
 			{Name: "streaming", N: func(t string) uint64 { return tierN(t, 20000, 2000000) }, Run: c14Streaming},
@@ -244,7 +245,7 @@ func c14Lengths(c *lib.Ctx, idx uint64) {
 		mult := 1 + int(idx/5)%4
 		base := []int{32767, 65535, 32768, 65536}[int(idx/20)%4]
 		n = base*mult*parts + []int{0, -1, 1, -2, 2, 3, -3}[int(idx/80)%7]
-		for n > 1400000 {
+		for n > 2300000 {
 			n -= base
 		}
 	}
@@ -252,6 +253,9 @@ func c14Lengths(c *lib.Ctx, idx uint64) {
 	c.SetInflight(d[:minInt(n, 64)])
 	// a PRNG starting state through a short first write
 	pre := rng.Bytes(rng.Intn(3))
+	if idx%2 == 0 && len(pre) == 0 {
+		pre = []byte{rng.Byte() | 1}
+	}
 	want := ref.CRC(append(append([]byte{}, pre...), d...))
 	h := dyncrc16.New()
 	h.Write(pre)
